@@ -61,8 +61,8 @@ type SeqFile struct {
 	Width  int      `json:"width,omitempty"`
 	QID    bool     `json:"qid,omitempty"`
 	Enc    int8     `json:"enc"`
-	WriteQ bool     `json:"write_qseq"` // values handed to the writer are *linear.QSeq
-	ReadQ  bool     `json:"read_qseq"`  // reader template is *linear.QSeq
+	WriteQ bool     `json:"write_qseq"`      // values handed to the writer are *linear.QSeq
+	ReadQ  bool     `json:"read_qseq"`       // reader template is *linear.QSeq
 	Route  int      `json:"route,omitempty"` // how the reader is driven, see Source / GenRoute
 	Recs   []SeqRec `json:"recs"`
 }
@@ -319,6 +319,13 @@ func GenSeqFile(t *rapid.T, format string, maxRecs int, allowLong bool) SeqFile 
 	if manyShort {
 		n = rapid.IntRange(30, 50).Draw(t, "nrecs-many")
 	}
+	// reads of a few hundred letters in no particular order of length: 6..12 records of 256..1200
+	// letters (a writer or reader that keeps a line buffer between records meets a shorter line
+	// after a longer one)
+	variedLong := allowLong && !manyShort && rapid.IntRange(0, 19).Draw(t, "varied-long-reads") == 11
+	if variedLong {
+		n = rapid.IntRange(6, 12).Draw(t, "nrecs-varied")
+	}
 	longBudget := 1
 	if allowLong && maxRecs > 10 {
 		longBudget = 3
@@ -342,6 +349,9 @@ func GenSeqFile(t *rapid.T, format string, maxRecs int, allowLong bool) SeqFile 
 		r.Len = GenSeqLen(t, f.Width, allowLong && longBudget > 0)
 		if manyShort {
 			r.Len = rapid.IntRange(100, 250).Draw(t, "short-read-len")
+		}
+		if variedLong {
+			r.Len = rapid.IntRange(256, 1200).Draw(t, "varied-read-len")
 		}
 		if giant && i == n/2 {
 			r.Len = rapid.SampledFrom([]int{65535, 65536, 65537, 70000, 131072, 140001}).Draw(t, "giant-len")
